@@ -37,6 +37,9 @@ var cellBodies = []string{
 	"{{.X}}", "a < b {{.X}}", "<b>{{.X}}</b>", "<!-- c -->{{.X}}", "if (a < b) { f(); }", "x<y", "<!-- note -->literal",
 	"{{if .C}}<i>{{else}}<b>{{end}}", "<a title=\"{{.X}}", "<a href=\"{{.X}}", "<script>", "{{.X}}\" title=\"y", "{{template \"cell\" .}}",
 	"<a title=\"", "{{.X}}{{.Y}}", "<div {{.X}}>", "</title",
+	// recursion through the helper itself or through a caller, ending in another context than it starts in
+	"{{if .N}}{{template \"cell\" .N}}{{end}}{{.X}}<b ", "{{if .N}}{{template \"c0\" .N}}{{.X}}>{{end}}<b ", "{{if .N}}{{template \"cell\" .N}}{{end}}<a title=\"{{.X}}",
+	"{{if .N}}{{template \"cell\" .N}}{{.X}}{{end}}", "{{.X}}{{if .N}}{{template \"c1\" .N}}{{end}}",
 }
 
 var callerBodies = []string{
@@ -46,6 +49,7 @@ var callerBodies = []string{
 	"<img alt='{{template \"cell\" .}}'>", "<b>{{template \"cell\" .}}</b>{{template \"cell\" .}}", "{{template \"cell\" .}}</script>{{template \"cell\" .}}{{.Y}}</script>",
 	"<title>{{template \"cell\" .}}</title", "<link rel=\"stylesheet\" href=\"{{template \"cell\" .}}\">", "<link rel=\"icon\" href=\"{{template \"cell\" .}}\">",
 	"<svg>{{template \"cell\" .}}</svg>", "{{if .C}}{{template \"cell\" .}}{{end}}",
+	"{{template \"cell\" .}}", "{{template \"cell\" .}}>done", "{{template \"cell\" .}}\">x", "<!-- off: {{template \"cell\" .}} -->",
 }
 
 // directedHistory: define cell + three callers, then execute members in a random order with repetitions,
